@@ -21,7 +21,7 @@ def plView (s : St) : String :=
 def plAddMode : String → Option AddMode
   | "accept" => some .accept | "suberr" => some .subErr | "reject" => some .reject
   | "nonjson" | "wrongshape" | "empty" | "malformedsig" => some .garbage
-  | "badsig" => some .wrongSigner | _ => none
+  | "badsig" => some .wrongSigner | "suberr-until-reg" => some .subErrUntilReg | _ => none
 
 def plRegMode : String → Option RegMode
   | "accept" => some .accept | "same" => some .same | "sameexpiry" => some .sameExpiry
@@ -45,7 +45,7 @@ def plStep (s : St) (ws : List String) : St × String :=
     | none => (s, "bad-op")
   | ["add", t, m] => match t.toNat?, plAddMode m with
     | some t, some m =>
-      withView { s with beh := fun x => if x = t then { s.beh t with add := m } else s.beh x } "ok"
+      withView { s with beh := fun x => if x = t then { s.beh t with add := m, renewed := false } else s.beh x } "ok"
     | _, _ => (s, "bad-op")
   | ["once", t, m] => match t.toNat?, plAddMode m with
     | some t, some m =>
